@@ -397,6 +397,24 @@ pub fn all(prop: &str, cancelable: bool) -> Vec<Template> {
             p.done()
         }));
     }
+    if want(&["C08"]) && !c {
+        // tracing is initialised a second time while a cycle has kept a commit back (first seen in
+        // its second drain pass): whatever the library does with the old collector's state, no
+        // entry of the finished trace may stay behind
+        v.push(tpl("set_reporter-again-while-a-commit-is-kept-back", stepped(3, false), 60_000, move || {
+            let mut p = B::new(2, c);
+            let r = p.root(0);
+            let ch = p.child(1, r);
+            p.finish(1, ch);
+            let x = p.root(0);
+            p.finish(0, x);
+            p.finish(1, r);
+            p.op(0, Op::SetReporter);
+            let y = p.root(1);
+            p.finish(1, y);
+            p.done()
+        }));
+    }
     if want(&["C17"]) {
         // a captured set is pushed to a span whose parents lie in two traces, from a thread whose
         // queue is drained late in a cycle, while one of the two roots was created on a queue the
